@@ -153,7 +153,7 @@ func c01Rules(tier string) []Rule {
 
 		// ---- (5) daemon overhead
 		core.Custom{ID: "C01.WSET1", Kind: "WSET", Run: c01DaemonPodUntouched},
-		MPT{ID: "C01.MPT7", Fn: "sched.isDaemonPodCompatible", Ret: core.RetTrue, Gates: gates(
+		MPT{ID: "C01.MPT7", Fn: "(*sched.NodeClaimTemplate).isDaemonPodCompatible", Ret: core.RetTrue, Gates: gates(
 			G(`+^\(scheduling\.Taints\)\.ToleratesPod\(\$0\.NodeClaim\.Spec\.Taints, \(\*corev1\.Pod\)\.DeepCopy\(\$2\)\) == nil$`),
 			G(`+^\(scheduling\.Requirements\)\.IsCompatible\(\$0\.Requirements, scheduling\.NewStrictPodRequirements\(\(\*corev1\.Pod\)\.DeepCopy\(\$2\)\), `+strictOpt+`\)$`),
 			G(`+^\(scheduling\.Requirements\)\.Intersects\(\$1\.Requirements, scheduling\.NewStrictPodRequirements\(\(\*corev1\.Pod\)\.DeepCopy\(\$2\)\)\) == nil$`),
@@ -161,7 +161,7 @@ func c01Rules(tier string) []Rule {
 		core.Custom{ID: "C01.PROV7", Kind: "PROV", Run: func(w *core.World, id string) []core.Result {
 			b := "sched.buildDaemonOverheadGroups"
 			rs := core.InstrPresent(w, id, "PROV", b, `^call utils/resources\.RequestsForPods\(lo\.Filter\[\*corev1\.Pod, \[\]\*corev1\.Pod\]\(\^\$2, closure:`, 1, "a group's overhead = requests of its compatible daemon pods")
-			rs = append(rs, core.InstrPresent(w, id, "PROV", b, `^call sched\.isDaemonPodCompatible\(\^\$0, \^\$0\.InstanceTypeOptions\[.*\], \$0\)$`, 1, "compatibility is evaluated per template, instance type and daemon pod")...)
+			rs = append(rs, core.InstrPresent(w, id, "PROV", b, `^call \(\*sched\.NodeClaimTemplate\)\.isDaemonPodCompatible\(\^\$0, \^\$0\.InstanceTypeOptions\[.*\], \$0\)$`, 1, "compatibility is evaluated per template, instance type and daemon pod")...)
 			return rs
 		}},
 
@@ -256,7 +256,7 @@ func fieldName(fa *ssa.FieldAddr) string { return core.FieldNameOf(fa) }
 // C01.WSET1 (F8): nothing reachable from buildDaemonOverheadGroups writes through the shared daemonset pods: the pod
 // mutators of Preferences are only applied to a DeepCopy made in isDaemonPodCompatible.
 func c01DaemonPodUntouched(w *core.World, id string) []core.Result {
-	const fnName = "sched.isDaemonPodCompatible"
+	const fnName = "(*sched.NodeClaimTemplate).isDaemonPodCompatible" // a plain function whose first parameter is the template: canonical method-style name
 	fn := w.Fn(fnName)
 	if fn == nil {
 		return []core.Result{core.Anchor(id, "WSET", fnName)}
